@@ -167,6 +167,8 @@ impl RefState {
                 ops::mul(&a[0], &a[1])?
             }
             CScale(k) => ops::scale(&a[0], *k),
+            CBAdd => ops::add(&a[0], &a[1])?,
+            CBMul => ops::mul(&a[0], &a[1])?,
             CFused3 => {
                 same(&a[0], &a[1])?;
                 same(&a[0], &a[2])?;
